@@ -78,16 +78,18 @@ def rules(ctx: Ctx) -> None:
     ctx.touched(tsc)
     am = [p for p in tsc.params() if p != "self"][0]
     n_own = 0
-    for f in [tsc] + [g for g in prog.funcs.values() if g.parent is tsc]:
-        pass
-    for k in prog.walk_fn(tsc):
-        if isinstance(k, ast.Call) and isinstance(k.func, ast.Name) and k.func.id == "_to_src_col" and len(k.args) > 1:
+    for st in prog.walk_fn(tsc):
+        if not (isinstance(st, ast.Assign) and any(isinstance(t, ast.Attribute) and t.attr == "parent" for t in st.targets)):
+            continue
+        for src in prog.value_sources(tsc, st.value):
+            if isinstance(src, ast.Constant) and src.value is None:
+                continue
             n_own += 1
-            a = k.args[1]
-            from_scope = (isinstance(a, ast.Name) and any(kind in ("for",) and am in u(node.iter) for kind, node in prog.local_defs(tsc, a.id))) or (am in u(a)) or (isinstance(a, ast.Constant) and a.value is None)
-            what = "scope-map" if from_scope else f"fabricated:{u(a.func) if isinstance(a, ast.Call) else u(a)}"
-            ctx.ob("R06.2", f"source-owner-from-scope:{what}", from_scope, loc(tsc.mod, k),
-                   f"`{u(k)[:60]}`: the owner of a source column must be a member of the statement's table group (every member is add_read), not an object invented from the qualifier text")
+            basis = src.iter if isinstance(src, (ast.For, ast.comprehension)) else src
+            from_scope = any(isinstance(x, ast.Name) and x.id == am for x in ast.walk(basis))
+            what = "scope-map" if from_scope else f"fabricated:{u(basis.func) if isinstance(basis, ast.Call) else type(basis).__name__}"
+            ctx.ob("R06.2", f"source-owner-from-scope:{what}", from_scope, loc(tsc.mod, basis),
+                   f"`{u(basis)[:60]}` becomes the owner of a source column: the owner must be a member of the statement's table group (every member is add_read), not an object invented from the qualifier text")
     ctx.floor("owner assignments in to_source_columns", n_own, 3)
 
     # ---- R06.3 at least one hop --------------------------------------------------------------------------
